@@ -323,6 +323,9 @@ def PcInv (s : Store) (m : Mem) : Pc → Prop
   | .init3 ds => ds = s.di ∧ m.cdi = [] ∧ m.outst = []
   | .moving todo => MovInv s m todo
   | .movingBackup todo => MovInv s m todo
+  | .fin1 _ _ => False     -- the fallback pcs are unreachable without storage errors
+  | .fin2 _ _ => False
+  | .fin3 _ _ => False
 
 structure LiveInv (c : Cfg) (m : Mem) (pc : Pc) : Prop where
   ri : m.ri = c.st.R
@@ -645,6 +648,9 @@ theorem inv_doTick {c : Cfg} {m : Mem} {pc : Pc} (h : Inv c) (hl : LiveInv c m p
     refine Inv.mkLive rfl (h.st.setSi _) ?_ h.fin ⟨hl.ri, hl.wi, hl.outst, ?_⟩
     · intro q hq; exact h.main q hq
     · exact pcInv_afterMove hmov
+  | fin1 i k => exact absurd hl.pc id
+  | fin2 i k => exact absurd hl.pc id
+  | fin3 i k => exact absurd hl.pc id
 
 /-- every label preserves the invariant: operations, continuation ticks and crashes alike -/
 theorem inv_fire {c : Cfg} (h : Inv c) (l : Label) : Inv (fire c l) := by
